@@ -251,6 +251,7 @@ class SubCheck:
     env: Dict[str, str] = dataclasses.field(default_factory=dict)
     fuzz_decode: Optional[Callable[[Any], Any]] = None     # Atheris: FuzzedDataProvider -> case (sub-check is a fuzz campaign)
     fuzz_seeds: Optional[Callable[[], Iterable[bytes]]] = None   # seed corpus for the odd-numbered shards (even ones start empty)
+    ambient: Any = ("debug_logging",)   # harness/ambient.py kinds a generated case may carry (logging level, fp error state, ...)
 
 
 # ----------------------------------------------------------------------------- known findings
